@@ -11,6 +11,17 @@ Theorem c15_equiv : forall fuel (st : tstore) st', substituted fuel st = Some st
 Proof. exact substituted_equiv. Qed.
 Print Assumptions c15_equiv.
 
+(* ${NAME} is the [Variables] entry NAME whatever options the section being read has: a species label or an option of the
+   same name does not shadow it (the stock interpolation looked in the section first; known finding before the repair) *)
+Theorem c15_variables_first : forall fuel (st : tstore) s name t rest,
+  lookup SVariables (KOpt name) st = Some t ->
+  interp (S fuel) st s (Var name :: rest) =
+    match interp (S fuel) st s rest with
+    | None => None
+    | Some r => option_map (fun x => x ++ r) (interp fuel st s t)
+    end.
+Proof. exact variables_first. Qed.
+
 (* defining (or changing) variables does not change the keys or the templates of any other section *)
 Theorem c15_unused_inert : forall (st st' : tstore),
   (forall s, s <> SVariables -> section s st' = section s st) ->
@@ -28,5 +39,6 @@ Example c15_example :
   let st : tstore := [(SVariables, [(KOpt 7, [Lit 1]); (KOpt 8, [Var 7; Lit 2])]); (SSpecies, [(KOpt 9, [Lit 5])]);
                       (SPair, [(KPair 0 1, [Lit 3; Var 8; Ref SSpecies (KOpt 9)])])] in
   get 5 st SPair (KPair 0 1) = Some [3; 1; 2; 5]%nat /\ options st SPair = [KPair 0 1] /\
+  get 5 [(SVariables, [(KOpt 7, [Lit 6])]); (SDensity, [(KSp 7, [Lit 4; Var 7])])] SDensity (KSp 7) = Some [4; 6]%nat /\
   exists st', substituted 5 st = Some st' /\ lookup SPair (KPair 0 1) st' = Some [3; 1; 2; 5]%nat.
-Proof. split; [vm_compute; reflexivity|]. split; [reflexivity|]. eexists. split; vm_compute; reflexivity. Qed.
+Proof. split; [vm_compute; reflexivity|]. split; [reflexivity|]. split; [vm_compute; reflexivity|]. eexists. split; vm_compute; reflexivity. Qed.
